@@ -3,9 +3,13 @@
 // Contracts for package cmd, checked by /verif (govc). Comment-only; compiled only under -tags verif.
 package cmd
 
+// C06 (the SVN comes from the side file the tool documents - the first readable candidate): once one candidate has been
+// read successfully no further candidate is read, so a later file can neither replace nor blank the first one.
 //@ func scrtmMain
 //@   assigns nothing
-//@   modifies pbsrc, pbok
+//@   modifies pbsrc, pbok, osReadOKs
+//@   ensures[C06] osReadOKs <= old(osReadOKs) + 1
+//@   loop 1 invariant[C06] osReadOKs == old(osReadOKs)
 //@   ghostset scrtmOK = result0
 //@   ghostset scrtmVer = result1
 
@@ -36,3 +40,10 @@ package cmd
 //@ func (*RotateCommand).InitContext
 //@   modifies *
 //@   ensures[C12,internal] err == nil && skc != nil && old(bigv)[old(skc.SigningKeySerial)] != 0 ==> skc.SigningKeySerial == old(skc.SigningKeySerial) && bigv[skc.SigningKeySerial] == old(bigv)[old(skc.SigningKeySerial)]
+
+// C12 (validity is anchored to the creation time the caller gave): the rotate command uses the --timestamp value as it
+// was given - same instant, same zone - and only an absent one is replaced, by the clock reading.
+//@ func (*RotateCommand).PersistentPreRunE
+//@   requires cmd != nil
+//@   modifies *
+//@   ensures[C12,internal] err == nil && skc != nil ==> skc.Now == old(skc.Now) || skc.Now == lastNow
